@@ -385,12 +385,74 @@ def jsonable(c):
     return {k: v for k, v in c.items() if not k.startswith('_')}
 
 
+def large_radius_family(chk):
+    """radii of 20 .. 130 pixels (mask offsets beyond the int8 / uint8 range): too large for the Coq model within
+    the time budget, so the two engines are compared with each other and with an independent numpy evaluation of
+    one window (max_iterations=1 from an exact start: position = centroid of the mask neighbourhood, mass = its sum)"""
+    from trackpy.refine.center_of_mass import refine_com_arr
+    from trackpy.masks import binary_mask
+    rng = chk.rng
+    cases = [((64, 64), (150, 150)), ((70, 3), (170, 40)), ((127, 2), (280, 30)), ((128, 3), (290, 30)), ((20, 20), (60, 60)),
+             ((66, 2, 2), (150, 12, 12)), ((3, 65), (40, 160))]
+    if chk.tier == 'thorough':
+        cases += [((129, 2), (300, 20)), ((100, 100), (230, 230)), ((2, 2, 80), (12, 12, 200))]
+    for radius, shape in cases:
+        nd = len(shape)
+        img = np.zeros(shape, dtype=np.int64)
+        grid = np.indices(shape)
+        for _ in range(3):
+            c = [rng.randint(r + 2, s - r - 3) for r, s in zip(radius, shape)]
+            d2 = sum(((g - ci) / (0.6 * r + 1.0)) ** 2 for g, ci, r in zip(grid, c, radius))
+            img += (200 * np.exp(-d2)).astype(np.int64)
+        img += np.array([rng.randint(0, 3) for _ in range(img.size)], dtype=np.int64).reshape(shape)
+        img = img.astype(np.uint16)
+        start = np.array([[rng.randint(r, s - 1 - r) for r, s in zip(radius, shape)]], dtype=float)
+        for ch in (False, True):
+            for iters in (1, 4):
+                large_eval(chk, img, radius, start, ch, iters)
+
+
+def large_eval(chk, img, radius, start, ch, iters):
+    from trackpy.refine.center_of_mass import refine_com_arr
+    from trackpy.masks import binary_mask
+    shape, nd = img.shape, img.ndim
+    info = dict(kind='large', radius=list(radius), shape=list(shape), start=start.tolist(), characterize=ch, max_iterations=iters, image=img.tolist())
+    out = {}
+    for eng in ('python', 'numba'):
+        try:
+            out[eng] = refine_com_arr(img, img, radius, start.copy(), max_iterations=iters, engine=eng, characterize=ch)
+        except Exception as e:
+            out[eng] = None
+            chk.violation('large radius: engine raised', "engine=%s raised %r at radius %s" % (eng, e, radius), dict(info, engine=eng))
+    chk.count(('large', tuple(radius), tuple(shape), start.tolist(), ch, iters), True)
+    chk.tally('large-radius engine comparison (radius max %d)' % max(radius))
+    if out['python'] is None or out['numba'] is None:
+        return
+    a, b = out['python'][0], out['numba'][0]
+    if not np.allclose(a, b, rtol=1e-9, atol=1e-9, equal_nan=True):
+        chk.violation('engines differ: large radius', "engine='python' and engine='numba' differ at radius %s (mask offsets beyond 127): %s vs %s" % (radius, a.tolist(), b.tolist()),
+                      dict(info, python=a.tolist(), numba=b.tolist()))
+    if iters == 1:
+        mask = binary_mask(tuple(radius), nd)
+        sl = tuple(slice(int(c) - r, int(c) + r + 1) for c, r in zip(start[0], radius))
+        nb = img[sl].astype(float) * mask
+        mass = nb.sum()
+        cen = [float((nb * g).sum() / mass) + (int(c) - r) for g, c, r in zip(np.indices(nb.shape), start[0], radius)]
+        for eng in ('python', 'numba'):
+            row = out[eng][0]
+            if not (np.allclose(row[:nd], cen, rtol=1e-9, atol=1e-9) and abs(row[nd] - mass) <= 1e-6 * max(1.0, mass)):
+                chk.violation('large radius: not the centroid / mass of the mask neighbourhood',
+                              "engine=%s at radius %s: position %s mass %s, independent evaluation of the start window gives %s mass %s" % (
+                                  eng, radius, row[:nd].tolist(), row[nd], cen, mass), dict(info, engine=eng))
+
+
 def run(chk):
     common.quiet_trackpy()
     chk.coq()
     n = 600 if chk.tier == "quick" else 5000
     calls = corpus() + [gen_call(chk.rng, chk.tier) for _ in range(n)]
     evaluate(chk, calls)
+    large_radius_family(chk)
     for c in calls[:2] + calls[-2:]:
         s = jsonable(c)
         s['impl_python'] = None if c['_out']['python'] is None else c['_out']['python'].tolist()
@@ -416,6 +478,11 @@ def replay(chk, path):
     common.quiet_trackpy()
     chk.coq()
     r = json.load(open(path))['replay']
+    if r.get('kind') == 'large':
+        img = np.array(r['image'], dtype=np.uint16)
+        large_eval(chk, img, tuple(r['radius']), np.array(r['start'], dtype=float), r['characterize'], r['max_iterations'])
+        print('replay: large-radius case radius', r['radius'], 'start', r['start'])
+        return
     if r.get('kind') not in ('row', 'call'):
         print('replay: nothing executable in this replay file (proof/correspondence breakage): see its log field')
         return
